@@ -31,7 +31,7 @@ ASSUMPTIONS = ["mtime is advanced by whole seconds through os.utime (logical clo
                "CRC32 collisions between different generated sources are not sampled"]
 REQUIRED_MONITORS = ["evaluates_current_sources", "source_to_library_injective", "cache_listing_is_image"]
 REQUIRED_BUCKETS = {"quick": ["op:edit_py_const", "op:edit_py_default", "op:edit_inc", "op:edit_template", "op:dtype",
-                              "op:revert", "op:edit_source_list", "op:load_with_other_integration_size", "loader:core", "loader:sasview", "loader:composite", "loader:nested", "eval:while-definition-broken", "eval:same_process", "eval:fresh_process", "revert_then_same_process",
+                              "op:revert", "op:edit_source_list", "op:load_with_other_integration_size", "loader:core", "loader:sasview", "loader:composite", "loader:nested", "loader:modelpath", "eval:while-definition-broken", "eval:same_process", "eval:fresh_process", "revert_then_same_process",
                               "default_only_edit_then_same_process", "clock:past", "clock:future", "clock:near-now", "clock:subsecond"]}
 REQUIRED_BUCKETS["thorough"] = REQUIRED_BUCKETS["quick"]
 HERE = os.path.dirname(os.path.abspath(__file__))
@@ -264,7 +264,7 @@ def run_case(case, rec):
                 continue
             ngauss = None
             via = "sasview" if (step + case["h"]) % 3 == 0 else "composite" if (step + case["h"]) % 7 == 1 else \
-                "nested" if (step + case["h"]) % 7 in (2, 5) else "core"
+                "nested" if (step + case["h"]) % 7 in (2, 5) else "modelpath" if (step + case["h"]) % 7 == 4 else "core"
             if op == "eval_size":
                 ngauss, via = [20, 150][step % 2], "core"
                 rec.bucket("op:load_with_other_integration_size")
@@ -276,7 +276,7 @@ def run_case(case, rec):
                 rec.bucket("default_only_edit_then_same_process")
             s = w.state
             expected = [float(s["K"]), float(s["V"] if s["S"] == 1 else s["V2"]), float(s["T"]),
-                        FSIZE[dtype] if via in ("core", "composite", "nested") else 8.0, float(s["D"]), float(ngauss or 76)]
+                        FSIZE[dtype] if via in ("core", "composite", "nested", "modelpath") else 8.0, float(s["D"]), float(ngauss or 76)]
             ctx = {"step": step, "history": ops[:step + 1][-10:], "dtype": dtype, "process": arg,
                    "expected_versions": dict(zip(["py_const", "include", "template", "float_size", "py_default", "gauss_n"], expected))}
             if w.broken:
